@@ -22,7 +22,8 @@ RULE = ("one collector process x 1-2 writer processes; writers run long transact
         "by the final metadata, every file of every snapshot in the final metadata exists and is readable, and no "
         "transaction younger than the 24 h abandonment window fails because its files vanished. Distinct = SHA-1 "
         "of write/lock/pointer/delete events; non-trivial = a pointer flip happened between the collector's first "
-        "and last storage call.")
+        "and last storage call. Early-collection plans: w0 is parked between its marker write and its data-file write until a first "
+        "collection has run, stays open past the grace period, and a second collection arrives just before / inside its commit.")
 ASSUMPTIONS = common.BASE_ASSUMPTIONS + [
     "a pre-built file is in scope from the moment append_files() has returned (it is then 'registered by a live transaction'); "
     "before that it is an ordinary unreferenced file",
